@@ -7,6 +7,20 @@ ROOT = Path(__file__).resolve().parents[1]
 PY = "/venv/bin/python harness/check.py"
 
 CHECKS = {
+    "C08": dict(
+        category="proof",
+        text="Lean theorems over all finite span trees and all configurations of the sequencer model: arranging siblings "
+             "(prior-information groups, ordering, overlap sweep) is a permutation; the sweep with its running maximum equals "
+             "the accumulator-free chain specification, never overlaps across a cut and merges exactly on overlap; the links' "
+             "emission order is a linear extension of the previous-event relation (acyclic, descendants first); renaming is "
+             "decided on ingested child types; every span is emitted exactly once. The model is compared with "
+             "sequence_otel_job_id_streams on all trees <= 4 spans on a grid and on random trees, and an independent "
+             "rendering of the documented rules is the oracle.",
+        ref="DESIGN.md §5 C08",
+        note="Trusted: Lean kernel; axioms propext, Quot.sound, Classical.choice; correspondence run; pydantic and the "
+             "flat-map-to-tree glue exercised not modelled. One recorded finding (multi-start when the first group is parallel).",
+        technique="Lean 4 proof (structural/mutual induction, List.Perm) + differential correspondence + rule oracle",
+    ),
     "C16": dict(
         category="proof",
         text="Lean theorems for every instant 1970..2100 at µs precision: calendar round trip (kernel-checked table of all "
